@@ -498,7 +498,7 @@ def coupled_last_index(F, fn, site):
             return False
         v = lit_int(b["lit"])
         return (pol and ((c["op"] in (">", "!=") and v == 0) or (c["op"] == ">=" and v == 1))) or (not pol and ((c["op"] == "==" and v == 0) or (c["op"] == "<" and v == 1)))
-    guarded = any(pol != "pat" and is_guard(c, pol) for pol, c in guard_conditions(body, idx))
+    guarded = any(pol in (True, False) and is_guard(c, pol) for pol, c in guard_conditions(body, idx))
     if not guarded:
         # `n > 0 && v[n-1] == x` : the access is in the right operand
         for a_, _role in (path_to(body, idx) or []):
@@ -661,7 +661,8 @@ def _entry_in_step(F, owner, n_pp, v_pp):
                     l = _strip_val(x["recv"])
                     if isinstance(l, dict) and l.get("k") == "Field" and l["name"] == fv and _nogen((l.get("base_ty") or "").lstrip("&").replace("mut ", "")) == adt:
                         return None
-                if x.get("k") == "Struct" and _nogen(x.get("adt") or "") == adt:
+                if x.get("k") == "Struct" and _nogen(x.get("adt") or "") == adt \
+                        and not all(isinstance(f_, list) and isinstance(f_[1], dict) and f_[1].get("k") in ("Binding", "Wild") for f_ in x.get("fields", [])):
                     for fname, val in x.get("fields", []):
                         if fname == fn_ and not _is_zero(val):
                             return None
@@ -762,7 +763,7 @@ def index_in_step(F, fn, site):
 
     guard_sp = None
     for pol, c in guard_conditions(body, loop):
-        if pol == "pat":
+        if pol in ("pat", "notpat"):
             continue
         st = [peel(c)]
         while st:
